@@ -8,8 +8,8 @@ use arrow_array::ffi::{from_ffi, to_ffi, FFI_ArrowArray, FFI_ArrowSchema};
 use arrow_array::ffi_stream::{ArrowArrayStreamReader, FFI_ArrowArrayStream};
 use arrow_array::{RecordBatch, RecordBatchIterator};
 use arrow_schema::{DataType, Field, Schema};
-use arrow_array::types::Int32Type;
-use arrow_array::{make_array, Array, ArrayRef, BooleanArray, Int32Array, PrimitiveArray};
+use arrow_array::types::{Int32Type, Int8Type};
+use arrow_array::{make_array, Array, ArrayRef, BooleanArray, DictionaryArray, Int32Array, Int8Array, PrimitiveArray};
 use arrow_buffer::alloc::Allocation;
 use arrow_buffer::{BooleanBuffer, Buffer, MemoryPool, MutableBuffer, NullBuffer, ScalarBuffer, TrackingMemoryPool};
 use std::ptr::NonNull;
@@ -77,7 +77,8 @@ impl Drop for Quarantine {
 #[derive(Clone, Copy, PartialEq, Eq, Debug)]
 enum Claim {
     No,
-    Yes,
+    /// claimed in pool 0 or 1 (the latest claim wins: a region has one reservation)
+    Yes(usize),
     /// an operation may or may not have copied: the accounting of this region is not predictable
     Unknown,
 }
@@ -101,6 +102,8 @@ enum Kind {
     Bool(BooleanBuffer),
     /// boolean array: values share a region (bit view), validity is harness-owned with its own bit offset
     BoolArr(BooleanArray),
+    /// dictionary array: the values child shares a region, the keys are harness-owned
+    Dict(DictionaryArray<Int8Type>),
     Exported(FFI_ArrowArray, FFI_ArrowSchema),
 }
 
@@ -110,6 +113,8 @@ struct Handle {
     validity: Option<Vec<bool>>,
     /// exported / imported handle is a boolean array (bit view) rather than an Int32 array
     bool_view: bool,
+    /// keys of a dictionary array (also remembered across export / import)
+    dict_keys: Option<Vec<Option<i8>>>,
     region: usize,
     /// byte offset and length of the view into the region (Bool: bit offset / bit length)
     off: usize,
@@ -119,12 +124,15 @@ struct Handle {
 pub struct World {
     regions: Vec<Region>,
     handles: Vec<Handle>,
-    pool: TrackingMemoryPool,
+    pools: [TrackingMemoryPool; 2],
     quarantine: Quarantine,
     pub steps: u64,
     fresh: u8,
 }
 
+fn dict_values(d: &DictionaryArray<Int8Type>) -> &Int32Array {
+    d.values().as_any().downcast_ref::<Int32Array>().expect("Int32 dictionary values")
+}
 fn i32s(bytes: &[u8]) -> Vec<i32> {
     bytes.chunks_exact(4).map(|c| i32::from_le_bytes([c[0], c[1], c[2], c[3]])).collect()
 }
@@ -134,7 +142,7 @@ fn bits(bytes: &[u8], off: usize, len: usize) -> Vec<bool> {
 
 impl World {
     pub fn new() -> Self {
-        World { regions: vec![], handles: vec![], pool: TrackingMemoryPool::default(), quarantine: Quarantine::default(), steps: 0, fresh: 1 }
+        World { regions: vec![], handles: vec![], pools: [TrackingMemoryPool::default(), TrackingMemoryPool::default()], quarantine: Quarantine::default(), steps: 0, fresh: 1 }
     }
 
     fn content(&mut self, ch: &mut dyn Chooser) -> Vec<u8> {
@@ -150,11 +158,15 @@ impl World {
     }
     fn add_handle(&mut self, kind: Kind, region: usize, off: usize, len: usize) {
         self.regions[region].live += 1;
-        self.handles.push(Handle { kind, validity: None, bool_view: false, region, off, len });
+        self.handles.push(Handle { kind, validity: None, bool_view: false, dict_keys: None, region, off, len });
     }
     fn add_bool_handle(&mut self, kind: Kind, validity: Option<Vec<bool>>, region: usize, off: usize, len: usize) {
         self.regions[region].live += 1;
-        self.handles.push(Handle { kind, validity, bool_view: true, region, off, len });
+        self.handles.push(Handle { kind, validity, bool_view: true, dict_keys: None, region, off, len });
+    }
+    fn add_dict_handle(&mut self, kind: Kind, keys: Vec<Option<i8>>, region: usize, off: usize, len: usize) {
+        self.regions[region].live += 1;
+        self.handles.push(Handle { kind, validity: None, bool_view: false, dict_keys: Some(keys), region, off, len });
     }
     fn take_handle(&mut self, i: usize) -> Handle {
         let h = self.handles.swap_remove(i);
@@ -204,6 +216,7 @@ impl World {
             Kind::Mut(m) => m.as_slice().to_vec(),
             Kind::VecI32(x) => x.iter().flat_map(|i| i.to_le_bytes()).collect(),
             Kind::Arr(a) => a.values().iter().flat_map(|i| i.to_le_bytes()).collect(),
+            Kind::Dict(d) => dict_values(d).values().iter().flat_map(|i| i.to_le_bytes()).collect(),
             Kind::Bool(b) => b.iter().map(|x| x as u8).collect(),
             Kind::BoolArr(a) => a.iter().map(|x| x.map(|b| b as u8).unwrap_or(2)).collect(),
             Kind::Exported(_, _) => return None,
@@ -233,7 +246,7 @@ impl World {
             }
         }
         // pool accounting at this quiescent point
-        let mut known = 0usize;
+        let mut known = [0usize; 2];
         let mut unknown = false;
         for (ri, r) in self.regions.iter().enumerate() {
             if r.live == 0 {
@@ -242,18 +255,20 @@ impl World {
             match r.claim {
                 Claim::No => {}
                 Claim::Unknown => unknown = true,
-                Claim::Yes => match self.capacity_of(ri) {
-                    Some(c) => known += c,
+                Claim::Yes(p) => match self.capacity_of(ri) {
+                    Some(c) => known[p] += c,
                     None => unknown = true,
                 },
             }
         }
-        let used = self.pool.used();
-        if !unknown && used != known {
-            return Err(v("pool_accounting", "pool/used", format!("after {after}: pool.used() = {used}, live claimed regions total {known}")));
-        }
-        if unknown && used < known {
-            return Err(v("pool_accounting", "pool/used", format!("after {after}: pool.used() = {used} is below the total {known} of the regions known to be claimed")));
+        for (p, known) in known.into_iter().enumerate() {
+            let used = self.pools[p].used();
+            if !unknown && used != known {
+                return Err(v("pool_accounting", "pool/used", format!("after {after}: pool {p}: used() = {used}, live regions claimed in it total {known}")));
+            }
+            if unknown && used < known {
+                return Err(v("pool_accounting", "pool/used", format!("after {after}: pool {p}: used() = {used} is below the total {known} of the regions known to be claimed in it")));
+            }
         }
         Ok(())
     }
@@ -266,6 +281,7 @@ impl World {
                 Kind::Buf(b) => Some(b.capacity()),
                 Kind::Mut(m) => Some(m.capacity()),
                 Kind::Arr(a) => Some(a.values().inner().capacity()),
+                Kind::Dict(d) => Some(dict_values(d).values().inner().capacity()),
                 Kind::Bool(b) => Some(b.inner().capacity()),
                 Kind::BoolArr(a) => Some(a.values().inner().capacity()),
                 Kind::VecI32(_) | Kind::Exported(_, _) => None,
@@ -285,7 +301,7 @@ impl World {
     pub fn step(&mut self, ch: &mut dyn Chooser) -> Result<(), Violation> {
         self.steps += 1;
         let n = self.handles.len();
-        let op = if n == 0 { 0 } else { ch.draw(20, "own.op") };
+        let op = if n == 0 { 0 } else { ch.draw(22, "own.op") };
         let pick = |ch: &mut dyn Chooser| ch.draw(n as u64, "own.h") as usize;
         let name: String;
         match op {
@@ -327,12 +343,16 @@ impl World {
                     Kind::Arr(a) => Some(Kind::Arr(a.clone())),
                     Kind::Bool(b) => Some(Kind::Bool(b.clone())),
                     Kind::BoolArr(a) => Some(Kind::BoolArr(a.clone())),
+                    Kind::Dict(d) => Some(Kind::Dict(d.clone())),
                     _ => None,
                 };
                 if let Some(k) = k {
                     if matches!(k, Kind::BoolArr(_)) {
                         let val = self.handles[i].validity.clone();
                         self.add_bool_handle(k, val, region, off, len);
+                    } else if matches!(k, Kind::Dict(_)) {
+                        let keys = self.handles[i].dict_keys.clone().expect("keys");
+                        self.add_dict_handle(k, keys, region, off, len);
                     } else {
                         self.add_handle(k, region, off, len);
                     }
@@ -553,30 +573,40 @@ impl World {
             }
             11 => {
                 let i = pick(ch);
+                // usually the first pool; a claim in the other one moves the region's reservation there
+                let p = (ch.draw(4, "own.pool") == 3) as usize;
                 let h = &self.handles[i];
+                let pool = &self.pools[p];
                 let claimed = match &h.kind {
                     Kind::Buf(b) => {
-                        b.claim(&self.pool);
+                        b.claim(pool);
                         true
                     }
                     Kind::Mut(m) => {
-                        m.claim(&self.pool);
+                        m.claim(pool);
                         true
                     }
                     Kind::Arr(a) => {
-                        a.values().inner().claim(&self.pool);
+                        a.values().inner().claim(pool);
+                        true
+                    }
+                    Kind::Dict(d) => {
+                        dict_values(d).values().inner().claim(pool);
                         true
                     }
                     Kind::Bool(b) => {
-                        b.claim(&self.pool);
+                        b.claim(pool);
                         true
                     }
                     _ => false,
                 };
                 if claimed {
                     let r = h.region;
+                    if matches!(self.regions[r].claim, Claim::Yes(q) if q != p) {
+                        ch.probe("own.reclaimed_in_other_pool");
+                    }
                     if self.regions[r].claim != Claim::Unknown || self.capacity_of(r).is_some() {
-                        self.regions[r].claim = Claim::Yes;
+                        self.regions[r].claim = Claim::Yes(p);
                     }
                     ch.probe("own.claimed");
                 }
@@ -588,14 +618,19 @@ impl World {
                 let data = match &self.handles[i].kind {
                     Kind::Arr(a) => Some(a.to_data()),
                     Kind::BoolArr(a) => Some(a.to_data()),
+                    Kind::Dict(d) => Some(d.to_data()),
                     _ => None,
                 };
                 if let Some(data) = data {
                     let (region, off, len) = (self.handles[i].region, self.handles[i].off, self.handles[i].len);
                     let (val, is_bool) = (self.handles[i].validity.clone(), self.handles[i].bool_view);
+                    let keys = self.handles[i].dict_keys.clone();
                     match to_ffi(&data) {
                         Ok((fa, fs)) => {
-                            if is_bool {
+                            if let Some(keys) = keys {
+                                self.add_dict_handle(Kind::Exported(fa, fs), keys, region, off, len);
+                                ch.probe("own.exported_dictionary");
+                            } else if is_bool {
                                 self.add_bool_handle(Kind::Exported(fa, fs), val, region, off, len);
                                 ch.probe("own.exported_boolean_array");
                             } else {
@@ -617,6 +652,28 @@ impl World {
                     match unsafe { from_ffi(fa, &fs) } {
                         Ok(data) => {
                             let arr: ArrayRef = make_array(data);
+                            if let Some(keys) = &h.dict_keys {
+                                // imported dictionary: same keys, values a separate object over the exporter's memory
+                                let d = arr.as_any().downcast_ref::<DictionaryArray<Int8Type>>().cloned().ok_or_else(|| v("ffi_error", "ffi/import", "imported array has the wrong type".into()))?;
+                                drop(arr);
+                                let got_keys: Vec<Option<i8>> = d.keys().iter().collect();
+                                let want = self.regions[h.region].bytes[h.off..h.off + h.len].to_vec();
+                                let got: Vec<u8> = dict_values(&d).values().iter().flat_map(|x| x.to_le_bytes()).collect();
+                                if &got_keys != keys || got != want {
+                                    return Err(v("imported_differs", "ffi/roundtrip", format!("dictionary array ({} keys, {} value bytes) imported over the C Data Interface differs from the exported one", keys.len(), want.len())));
+                                }
+                                let nr = self.add_region(want, None);
+                                if !dict_values(&d).values().inner().is_empty() {
+                                    self.regions[nr].parent = Some(h.region);
+                                    self.regions[h.region].live += 1;
+                                }
+                                self.add_dict_handle(Kind::Dict(d), keys.clone(), nr, 0, h.len);
+                                ch.probe("own.imported");
+                                ch.probe("own.imported_dictionary");
+                                self.settle();
+                                ch.event("import", self.handles.len() as u64, self.regions.len() as u64);
+                                return self.check("import");
+                            }
                             if h.bool_view {
                                 // imported boolean array: logical equality with what was exported (values + validity)
                                 let a = arr.as_any().downcast_ref::<BooleanArray>().cloned().ok_or_else(|| v("ffi_error", "ffi/import", "imported array has the wrong type".into()))?;
@@ -747,6 +804,21 @@ impl World {
                 }
                 name = "as_boolean_array".into();
             }
+            20 => {
+                // Int32Array -> dictionary values (shares the region); the keys are harness-owned
+                let i = pick(ch);
+                if matches!(self.handles[i].kind, Kind::Arr(_)) && self.handles[i].len >= 4 {
+                    let h = self.take_handle(i);
+                    let Kind::Arr(a) = h.kind else { unreachable!() };
+                    let nv = (h.len / 4).min(100);
+                    let nk = ch.draw(9, "own.dict_keys") as usize;
+                    let keys: Vec<Option<i8>> = (0..nk).map(|k| if (k + self.steps as usize) % 5 == 4 { None } else { Some(((k * 3 + self.steps as usize) % nv) as i8) }).collect();
+                    let d = DictionaryArray::<Int8Type>::try_new(Int8Array::from(keys.clone()), Arc::new(a)).map_err(|e| v("harness", "dictionary/new", format!("{e}")))?;
+                    self.add_dict_handle(Kind::Dict(d), keys, h.region, h.off, h.len);
+                    ch.probe("own.dictionary_array");
+                }
+                name = "as_dictionary".into();
+            }
             _ => {
                 let i = pick(ch);
                 let h = self.take_handle(i);
@@ -768,8 +840,10 @@ impl World {
             self.settle();
             self.check("final drop")?;
         }
-        if self.pool.used() != 0 {
-            return Err(v("pool_accounting", "pool/leak", format!("every handle is gone, pool.used() = {}", self.pool.used())));
+        for (p, pool) in self.pools.iter().enumerate() {
+            if pool.used() != 0 {
+                return Err(v("pool_accounting", "pool/leak", format!("every handle is gone, pool {p}: used() = {}", pool.used())));
+            }
         }
         Ok(self.steps)
     }
